@@ -82,6 +82,10 @@ def eval_and_deriv(ctx, bz, rng, reps):
             tn = beta * Tn
             tn = np.where(u < 0.2, np.where(u < 0.1, 0.0, Tn), tn)
             vals, _ = ev(Pn, Tn, tn)
+            shapes_ok = all(v.shape[1:] == (d, 1) for v in vals)
+            ctx.check("curve_value_has_curve_dimension", "n=%d,d=%d" % (n, d), shapes_ok, {"shapes": [list(v.shape[1:]) for v in vals], "expected": [d, 1]})
+            if not shapes_ok:
+                continue
             for m in range(0, n + 1):
                 err = np.empty(R)
                 for r in range(R):
